@@ -116,7 +116,8 @@ class B(object):
         if k == 10:
             return '(%s, %s)' % (self.expr(ctx, depth + 1, forbid), self.expr(ctx, depth + 1, forbid))
         if k == 11:
-            return '%s.attr' % self.pick([n for n in ctx.get('bound', ()) if n in POOL and n not in forbid] or [n for n in POOL if n not in forbid] or ['print'])
+            fb = forbid if (ctx.get('in_comp') or ctx.get('hard_forbid')) else ()
+            return '%s.attr' % self.pick([n for n in ctx.get('bound', ()) if n in POOL and n not in fb] or [n for n in POOL if n not in fb] or ['print'])
         if k == 12 and self.funcs:
             return self.call_expr(ctx, depth, forbid)
         if k == 13 and self.classes:
@@ -153,6 +154,10 @@ class B(object):
         return rd()
 
     def _read(self, ctx, forbid):
+        # `forbid` = names the enclosing statement rebinds: the properties only exclude reading them from INSIDE a
+        # comprehension (and a function's own name in its header, marked hard_forbid); elsewhere `a = use(a)` is in domain
+        if not (ctx.get('in_comp') or ctx.get('hard_forbid')):
+            forbid = ()
         for _ in range(4):
             n = self.readable(ctx)
             if n not in forbid:
@@ -205,7 +210,7 @@ class B(object):
         self.features.add('comp-' + kind)
         self.dec()
         nfor = 1 if not self.room() or self.chance(75) else 2
-        inner = dict(ctx, no_walrus=True)
+        inner = dict(ctx, no_walrus=True, in_comp=True)
         self.comp_nest = getattr(self, 'comp_nest', 0) + 1
         COMP_VARS = ['i%d' % self.comp_nest, 'j%d' % self.comp_nest] if self.profile != 'c01' else ['i', 'j']
         clauses = []
@@ -572,7 +577,7 @@ class B(object):
         params, sig = self.params(ctx, is_method, own_forbid)
         ret = ''
         if self.chance(15):
-            ret = ' -> %s' % self._read(ctx, own_forbid)
+            ret = ' -> %s' % self._read(dict(ctx, hard_forbid=True), own_forbid)
             self.features.add('return-annotation')
         lines = deco + [ind + 'def %s(%s)%s:' % (fname, ', '.join(params), ret)]
         pnames = sig['names']
@@ -639,6 +644,8 @@ class B(object):
     def params(self, ctx, is_method, forbid):
         if self.profile != 'c01':
             ctx = dict(ctx, no_walrus=True)
+        if forbid:
+            ctx = dict(ctx, hard_forbid=True)
         out = []
         names = []
         pool = [n for n in POOL]
